@@ -75,6 +75,29 @@ CHECKS = {
                 note="trusted: StreamModel in mc/models.py, builders of C01-C06, AlignedStream as a given dependency; histories "
                      "longer than the depth bound are covered only by the sweeps; thread-safety not in scope",
                 technique="exhaustive history-tree exploration of the real stream objects against a history-free model"),
+    "C10": dict(level=MC, ref="DESIGN.md section 4 C10",
+                text="Real descriptor-driven disks with 1-3 extents of every kind (FLAT, VMFS, SPARSE, VMFSSPARSE, SESPARSE) x "
+                     "sizes x access x file names, VMDK([handles]) lists and Parallels descriptors with 1-3 storages in every XML "
+                     "order are opened through the public constructors; size, sector_count and every boundary (sector,count) / "
+                     "byte request around the extent boundaries are compared with the concatenation of per-extent models; flat "
+                     "files carry trailing slack so a size taken from the file shifts everything behind it.",
+                note="trusted: builders of C02/C06, descriptor text per VMware VDF 1.1 / prl-xml.txt"),
+    "C13": dict(level=MC, ref="DESIGN.md section 4 C13",
+                text="For every format the full product scale (small .. format limit, up to 64 TiB) x placement of tables and data "
+                     "(low, > 2^32 bytes, > 2^32 sectors, top of the field range) x allocation density x request is served from "
+                     "a metering sparse virtual file: content at the extreme offsets must be right, bytes requested during open + "
+                     "read must stay within 2*metadata + 4*request + 64 KiB, a densely allocated image must cost exactly the same "
+                     "I/O as a nearly empty one with the same tables, and no payload the request does not map to may be touched.",
+                note="trusted: I/O meter in mc/vfile.SparseFile, builders; the bound uses ALL mapping metadata because eager table "
+                     "loading is allowed by the statement",
+                technique="exhaustive enumeration of scale x placement x density x request configurations on the real readers with an I/O meter"),
+    "C14": dict(level=MC, ref="DESIGN.md section 4 C14",
+                text="Per metadata structure the full product of stored values / lengths / counts / encodings / sequence pairs is "
+                     "serialised, opened with the real parser and every exposed attribute compared with the stored value: QCOW2 "
+                     "header, extension lists, backing names, snapshot tables; VHDX header pairs, metadata items, parent locators; "
+                     "VMDK descriptors incl. embedded ones; VHD / VDI / HDS headers; Parallels descriptors.",
+                note="trusted: builders; case-insensitive comparison only where the library documents a normalised view",
+                technique="exhaustive enumeration of stored values per structure against the real parsers"),
 }
 
 PENDING_REASON = "check not built yet in this session (planned in DESIGN.md section 4); not claimed until it runs"
